@@ -1,10 +1,55 @@
 import CaresModel.Dsa.Arr
+import CaresModel.Dsa.HTable
+import CaresModel.Buf
+import CaresModel.Dsa.SList
+import CaresModel.Dsa.LList
 import Driver.Loop
 /-! Model driver for the `h_dsa` line protocol (DESIGN.md appendix A.1). -/
-open Cares.Dsa Driver
+open Cares Cares.Dsa Driver
+
+abbrev Bytes := List Nat
+
+/-- the typed hash tables and what their wrappers add to ares_htable_t -/
+structure HKind where
+  name : String
+  strKey : Bool      -- keys are text (hex in the protocol); numbers otherwise
+  strVal : Bool
+  caseIns : Bool     -- ares_strcaseeq / FNV1a_casecmp
+  pre : Nat          -- allocations made by the typed insert before ares_htable_insert
+  wrapAlloc : Nat    -- allocations made by the typed create before ares_htable_create
+  keysAllocs : Option Nat  -- allocations of the `keys` call besides one per key copy (none = no such API)
+  keyCopies : Bool   -- `keys` duplicates every key (dict)
+  rejectEmptyKey : Bool
+
+def hkinds : List HKind := [
+  { name := "szvp", strKey := false, strVal := false, caseIns := false, pre := 1, wrapAlloc := 1, keysAllocs := none, keyCopies := false, rejectEmptyKey := false },
+  { name := "strvp", strKey := true, strVal := false, caseIns := true, pre := 2, wrapAlloc := 1, keysAllocs := none, keyCopies := false, rejectEmptyKey := false },
+  { name := "asvp", strKey := false, strVal := false, caseIns := false, pre := 1, wrapAlloc := 1, keysAllocs := some 2, keyCopies := false, rejectEmptyKey := false },
+  { name := "vpvp", strKey := false, strVal := false, caseIns := false, pre := 1, wrapAlloc := 1, keysAllocs := none, keyCopies := false, rejectEmptyKey := false },
+  { name := "vpstr", strKey := false, strVal := true, caseIns := false, pre := 2, wrapAlloc := 1, keysAllocs := none, keyCopies := false, rejectEmptyKey := false },
+  { name := "dict", strKey := true, strVal := true, caseIns := true, pre := 3, wrapAlloc := 1, keysAllocs := some 2, keyCopies := true, rejectEmptyKey := true },
+  { name := "raw", strKey := false, strVal := false, caseIns := false, pre := 1, wrapAlloc := 0, keysAllocs := some 1, keyCopies := false, rejectEmptyKey := false }]
+
+/-- the callbacks each kind registers.  The seed of the typed tables is not observable (and no output
+    depends on it: C19.ht_run_refines); `raw` uses the identity hash of the harness. -/
+def hkOps (k : HKind) : HOps Bytes :=
+  if k.name = "raw" then { hash := fun key => u32 (key.headD 0), eq := fun a b => a == b }
+  else if k.caseIns then { hash := fun key => fnv1aCase key 0, eq := strCaseEq }
+  else { hash := fun key => fnv1a key 0, eq := fun a b => a == b,
+         -- the key of the pointer-keyed tables is the pointer itself: 0 is NULL
+         isNull := fun key => (k.name = "vpvp" ∨ k.name = "vpstr") ∧ key == [0] }
 
 structure DsaState where
   arrs : List (Nat × Arr) := []
+  hts : List (Nat × (HKind × HTable Bytes Bytes)) := []
+  bufs : List (Nat × Buf) := []
+  sls : List (Nat × SList) := []
+  slnodes : List (Nat × Nat) := []      -- live skip-list node → its list
+  slPat : List Nat := []                -- coin pattern (`sl rand`)
+  slCtr : Nat := 0
+  llh : LHeap := LHeap.empty
+  orc : Oracle := Oracle.ok
+  cntBase : Nat := 0
 
 def stStr : St → String
   | .ok => "ok" | .formerr => "err" | .nomem => "nomem"
@@ -12,16 +57,68 @@ def stStr : St → String
 def optStr : Option Nat → String
   | some v => toString v | none => "none"
 
+/-! hex text -/
+def hexDigit (c : Char) : Option Nat :=
+  if '0' ≤ c ∧ c ≤ '9' then some (c.toNat - '0'.toNat)
+  else if 'a' ≤ c ∧ c ≤ 'f' then some (c.toNat - 'a'.toNat + 10)
+  else if 'A' ≤ c ∧ c ≤ 'F' then some (c.toNat - 'A'.toNat + 10)
+  else none
+
+def unhexAux : List Char → Option Bytes
+  | [] => some []
+  | [_] => some []            -- h_unhex ignores a dangling nibble
+  | a :: b :: r => do
+    let x ← hexDigit a
+    let y ← hexDigit b
+    let rest ← unhexAux r
+    pure ((x * 16 + y) :: rest)
+
+def unhex (s : String) : Option Bytes := if s = "-" then some [] else unhexAux s.toList
+
+def hexNib (n : Nat) : Char := if n < 10 then Char.ofNat (48 + n) else Char.ofNat (87 + n)
+
+def hexOf (b : Bytes) : String :=
+  if b.isEmpty then "-" else String.ofList (b.flatMap (fun x => [hexNib (x / 16), hexNib (x % 16)]))
+
+/-- strcmp order on byte strings -/
+def ltBytes : Bytes → Bytes → Bool
+  | [], [] => false
+  | [], _ :: _ => true
+  | _ :: _, [] => false
+  | a :: as, b :: bs => if a < b then true else if b < a then false else ltBytes as bs
+
+def insertSorted (lt : α → α → Bool) (x : α) : List α → List α
+  | [] => [x]
+  | y :: r => if lt x y then x :: y :: r else y :: insertSorted lt x r
+
+def sortBy (lt : α → α → Bool) (l : List α) : List α := l.foldl (fun acc x => insertSorted lt x acc) []
+
 def arrCmd (s : DsaState) (cmd : String) (h : Nat) (args : List Nat) : DsaState × String :=
-  if cmd = "new" then ({ s with arrs := update h Arr.empty s.arrs }, "ok") else
+  if cmd = "new" then
+    -- ares_array_create: one allocation
+    let (ok, o) := s.orc.next
+    if ok then ({ s with arrs := update h Arr.empty s.arrs, orc := o }, "ok")
+    else ({ s with arrs := remove h s.arrs, orc := o }, "nomem")
+  else
   match lookup h s.arrs with
   | none => (s, "bad-handle")
   | some a =>
+    -- ares_array_set_size calls realloc exactly when the rounded size exceeds the allocation
+    let ins (idx v : Nat) : DsaState × String :=
+      let grows := idx ≤ a.cnt ∧ (a.setSize (a.cnt + 1) true).2.mem.length ≠ a.mem.length
+      let (ok, o) := if grows then s.orc.next else (true, s.orc)
+      let r := a.insertAt idx v ok
+      ({ s with arrs := update h r.2 s.arrs, orc := o }, stStr r.1)
     let upd (r : St × Arr) : DsaState × String := ({ s with arrs := update h r.2 s.arrs }, stStr r.1)
     match cmd, args with
-    | "ins", [idx, v] => upd (a.insertAt idx v true)
-    | "insfirst", [v] => upd (a.insertFirst v true)
-    | "inslast", [v] => upd (a.insertLast v true)
+    | "ins", [idx, v] => ins idx v
+    | "insfirst", [v] => ins 0 v
+    | "inslast", [v] => ins a.cnt v
+    | "setsize", [n] =>
+      let grows := ¬ (n = 0 ∨ n < a.cnt) ∧ (a.setSize n true).2.mem.length ≠ a.mem.length
+      let (ok, o) := if grows then s.orc.next else (true, s.orc)
+      let r := a.setSize n ok
+      ({ s with arrs := update h r.2 s.arrs, orc := o }, stStr r.1)
     | "rm", [idx] => upd (a.claimAt idx)
     | "rmfirst", [] => upd a.removeFirst
     | "rmlast", [] => upd a.removeLast
@@ -40,12 +137,345 @@ def arrCmd (s : DsaState) (cmd : String) (h : Nat) (args : List Nat) : DsaState 
       | some l => ({ s with arrs := remove h s.arrs }, showList l)
     | _, _ => (s, "bad-op")
 
+def parseKey (k : HKind) (tok : String) : Option Bytes :=
+  if k.strKey then unhex tok else tok.toNat?.map (fun n => [n])
+
+def parseVal (k : HKind) (tok : String) : Option Bytes :=
+  if k.strVal then unhex tok else tok.toNat?.map (fun n => [n])
+
+def showKey (k : HKind) (b : Bytes) : String := if k.strKey then hexOf b else toString (b.headD 0)
+def showVal (k : HKind) (b : Bytes) : String := if k.strVal then hexOf b else toString (b.headD 0)
+
+def htCmd (s : DsaState) (cmd : String) (h : Nat) (args : List String) : DsaState × String :=
+  if cmd = "new" then
+    match args with
+    | [kname] =>
+      match hkinds.find? (·.name = kname) with
+      | none => (s, "bad-op")
+      | some k =>
+        match s.orc.nextN k.wrapAlloc with
+        | (false, o) => ({ s with hts := remove h s.hts, orc := o }, "nomem")
+        | (true, o) =>
+          match HTable.create (K := Bytes) (V := Bytes) o with
+          | (none, o1) => ({ s with hts := remove h s.hts, orc := o1 }, "nomem")
+          | (some t, o1) => ({ s with hts := update h (k, t) s.hts, orc := o1 }, "ok")
+    | _ => (s, "bad-op")
+  else
+  match lookup h s.hts with
+  | none => (s, "bad-handle")
+  | some (k, t) =>
+    let ops := hkOps k
+    match cmd, args with
+    | "put", [kt, vt] =>
+      match parseKey k kt, parseVal k vt with
+      | some key, some val =>
+        if k.rejectEmptyKey ∧ key.isEmpty then (s, "err")
+        else
+          let (ok, t', o) := HTable.wrapInsert ops k.pre t key val s.orc
+          ({ s with hts := update h (k, t') s.hts, orc := o }, if ok then "ok" else "err")
+      | _, _ => (s, "bad-op")
+    | "get", [kt] =>
+      match parseKey k kt with
+      | some key =>
+        match HTable.get ops t key with
+        | some e => (s, showVal k e.2)
+        | none => (s, "none")
+      | none => (s, "bad-op")
+    | "claim", [kt] =>
+      if k.name ≠ "strvp" then (s, "bad-op") else
+      match parseKey k kt with
+      | some key =>
+        match HTable.get ops t key with
+        | some e => ({ s with hts := update h (k, (HTable.remove ops t key).2) s.hts }, showVal k e.2)
+        | none => (s, "none")
+      | none => (s, "bad-op")
+    | "del", [kt] =>
+      match parseKey k kt with
+      | some key =>
+        let (ok, t') := HTable.remove ops t key
+        ({ s with hts := update h (k, t') s.hts }, if ok then "ok" else "none")
+      | none => (s, "bad-op")
+    | "count", [] => (s, toString t.numKeys)
+    | "keys", [] =>
+      match k.keysAllocs with
+      | none => (s, "unsupported")
+      | some n =>
+        if t.numKeys = 0 then (s, "[]") else
+        match s.orc.nextN (n + (if k.keyCopies then t.numKeys else 0)) with
+        | (false, o) => ({ s with orc := o }, "nomem")
+        | (true, o) =>
+          let ks := t.entries.map (·.1)
+          let sorted := if k.strKey then sortBy ltBytes ks else sortBy (fun a b => a.headD 0 < b.headD 0) ks
+          ({ s with orc := o }, "[" ++ " ".intercalate (sorted.map (showKey k)) ++ "]")
+    | _, _ => (s, "bad-op")
+
+def showSections (l : List Bytes) : String := "[" ++ " ".intercalate (l.map hexOf) ++ "]"
+
+def bufCmd (s : DsaState) (cmd : String) (h : Nat) (args : List String) : DsaState × String :=
+  let setB (b : Buf) (out : String) : DsaState × String := ({ s with bufs := update h b s.bufs }, out)
+  if cmd = "new" then
+    let (ok, o) := s.orc.next
+    if ok then ({ s with bufs := update h Buf.empty s.bufs, orc := o }, "ok")
+    else ({ s with bufs := remove h s.bufs, orc := o }, "nomem")
+  else if cmd = "const" then
+    match args.head?.bind unhex with
+    | none => (s, "bad-op")
+    | some data =>
+      match Buf.ofConst data with
+      | none => ({ s with bufs := remove h s.bufs }, "none")
+      | some b =>
+        let (ok, o) := s.orc.next
+        if ok then ({ s with bufs := update h b s.bufs, orc := o }, "ok")
+        else ({ s with bufs := remove h s.bufs, orc := o }, "nomem")
+  else
+  match lookup h s.bufs with
+  | none => (s, "bad-handle")
+  | some b =>
+    let nat1 : Option Nat := args.head?.bind String.toNat?
+    let stB (r : St × Buf) : DsaState × String := setB r.2 (stStr r.1)
+    let stBO (r : St × Buf × Oracle) : DsaState × String :=
+      ({ s with bufs := update h r.2.1 s.bufs, orc := r.2.2 }, stStr r.1)
+    let cnt (r : Nat × Buf) : DsaState × String := setB r.2 (toString r.1)
+    match cmd, args with
+    | "app", [hx] =>
+      match unhex hx with
+      | some d => stBO (b.append d s.orc)
+      | none => (s, "bad-op")
+    | "be16", [_] => match nat1 with
+      | some n => stBO (b.appendBe16 n s.orc)
+      | none => (s, "bad-op")
+    | "be32", [_] => match nat1 with
+      | some n => stBO (b.appendBe32 n s.orc)
+      | none => (s, "bad-op")
+    | "fetch", [_] => match nat1 with
+      | some n =>
+        match b.fetchBytes n with
+        | (some bytes, b') => setB b' (hexOf bytes)
+        | (none, _) => (s, "err")
+      | none => (s, "bad-op")
+    | "fbe16", [] => match b.fetchBe 2 with
+      | (some v, b') => setB b' (toString v)
+      | (none, _) => (s, "err")
+    | "fbe32", [] => match b.fetchBe 4 with
+      | (some v, b') => setB b' (toString v)
+      | (none, _) => (s, "err")
+    | "consume", [_] => match nat1 with
+      | some n => stB (b.consume n)
+      | none => (s, "bad-op")
+    | "tag", [] => setB b.doTag "ok"
+    | "rollback", [] => stB b.tagRollback
+    | "tagclear", [] => stB b.tagClear
+    | "tagfetch", [] => match b.tagFetchBytes 70000 with
+      | some bytes => (s, hexOf bytes)
+      | none => (s, "err")
+    | "taglen", [] => (s, toString b.tagLength)
+    | "reclaim", [] => setB b.reclaim "ok"
+    | "setlen", [_] => match nat1 with
+      | some n => stB (b.setLength n)
+      | none => (s, "bad-op")
+    | "len", [] => (s, toString b.len)
+    | "peek", [] => (s, hexOf (b.fetch.getD []))
+    | "setpos", [_] => match nat1 with
+      | some n => stB (b.setPosition n)
+      | none => (s, "bad-op")
+    | "getpos", [] => (s, toString b.off)
+    | "ws", [_] => match nat1 with
+      | some n => cnt (b.consumeWhitespace (n != 0))
+      | none => (s, "bad-op")
+    | "nonws", [] => cnt b.consumeNonWhitespace
+    | "line", [_] => match nat1 with
+      | some n => cnt (b.consumeLine (n != 0))
+      | none => (s, "bad-op")
+    | "until", [cs, req] =>
+      match unhex cs, req.toNat? with
+      | some cs, some req =>
+        match b.consumeUntilCharset cs (req != 0) with
+        | (some n, b') => setB b' (toString n)
+        | (none, b') => setB b' "max"
+      | _, _ => (s, "bad-op")
+    | "charset", [cs] =>
+      match unhex cs with
+      | some cs => cnt (b.consumeCharset cs)
+      | none => (s, "bad-op")
+    | "split", [ds, fl, mx] =>
+      match unhex ds, fl.toNat?, mx.toNat? with
+      | some ds, some fl, some mx =>
+        match b.split ds (Buf.SplitFlags.ofNat fl) mx with
+        | some (b', secs) => setB b' (showSections secs)
+        | none => (s, "err")
+      | _, _, _ => (s, "bad-op")
+    | "finishbin", [] =>
+      match b.finishBin s.orc with
+      | (some bytes, o) => ({ s with bufs := remove h s.bufs, orc := o }, hexOf bytes)
+      | (none, o) => ({ s with orc := o }, "err")
+    | "finishstr", [] =>
+      match b.finishBin s.orc with
+      | (some bytes, o) => ({ s with bufs := remove h s.bufs, orc := o }, hexOf bytes)
+      | (none, o) => ({ s with orc := o }, "err")
+    | _, _ => (s, "bad-op")
+
+/-- the model's own coin flips: node levels are not observable (C19.sl_insert_refines holds for all of them),
+    so they need not be the implementation's; the pattern of `sl rand` is used when there is one -/
+def slCoins (pat : List Nat) (ctr : Nat) : List Bool :=
+  (List.range 40).map (fun i =>
+    if pat.isEmpty then ((ctr + i) * 2654435761 + (ctr + i) / 3) % 7 < 3
+    else (pat.getD (((ctr + i) / 8) % pat.length) 0 >>> ((ctr + i) % 8)) % 2 = 1)
+
+def slShow (s : SList) (l : List Nat) : String :=
+  "[" ++ " ".intercalate (l.map (fun id => toString id ++ ":" ++ toString (s.key id))) ++ "]"
+
+/-- backward iteration as the C code does it: from the tail along prev[0] -/
+def slBackward (s : SList) : Nat → Option Nat → List Nat
+  | 0, _ => []
+  | _, none => []
+  | fuel + 1, some x => x :: slBackward s fuel (SList.prevOf x s.level0)
+
+def slCmd (s : DsaState) (cmd : String) (args : List String) : DsaState × String :=
+  let nats := args.mapM String.toNat?
+  match cmd, args with
+  | "rand", [hx] =>
+    match unhex hx with
+    | some p => ({ s with slPat := p, slCtr := 0 }, "ok")
+    | none => (s, "bad-op")
+  | _, _ =>
+  match nats with
+  | none => (s, "bad-op")
+  | some nats =>
+    if cmd = "rm" ∨ cmd = "setkey" ∨ cmd = "reinsert" ∨ cmd = "next" ∨ cmd = "prev" then
+      match nats with
+      | n :: rest =>
+        match lookup n s.slnodes with
+        | none => (s, "bad-handle")
+        | some h =>
+          match lookup h s.sls with
+          | none => (s, "bad-handle")
+          | some l =>
+            match cmd, rest with
+            | "rm", [] => ({ s with sls := update h (l.remove n) s.sls, slnodes := remove n s.slnodes }, toString n)
+            | "setkey", [k] => ({ s with sls := update h (l.setKey n k) s.sls }, "ok")
+            | "reinsert", [] => ({ s with sls := update h (l.reinsert n) s.sls }, "ok")
+            | "next", [] => (s, optStr (SList.after n l.level0).head?)
+            | "prev", [] => (s, optStr (SList.prevOf n l.level0))
+            | _, _ => (s, "bad-op")
+      | [] => (s, "bad-op")
+    else
+      match nats with
+      | h :: rest =>
+        if cmd = "new" then
+          match lookup h s.sls, rest with
+          | none, [] => ({ s with sls := update h SList.empty s.sls }, "ok")
+          | _, _ => (s, "bad-op")
+        else
+        match lookup h s.sls with
+        | none => (s, "bad-handle")
+        | some l =>
+          match cmd, rest with
+          | "ins", [n, k] =>
+            match lookup n s.slnodes with
+            | some _ => (s, "bad-handle")
+            | none =>
+              let coins := slCoins s.slPat s.slCtr
+              ({ s with sls := update h (l.insert n k coins) s.sls, slnodes := update n h s.slnodes,
+                        slCtr := s.slCtr + 7 }, "ok")
+          | "find", [k] => (s, optStr (l.find k))
+          | "first", [] => (s, optStr l.first)
+          | "last", [] => (s, optStr l.last)
+          | "len", [] => (s, toString l.cnt)
+          | "dumpf", [] => (s, slShow l l.level0)
+          | "dumpb", [] => (s, slShow l (slBackward l (l.cnt + 1) l.tail))
+          | _, _ => (s, "bad-op")
+      | [] => (s, "bad-op")
+
+def llFuel : Nat := 2048
+
+def llCmd (s : DsaState) (cmd : String) (args : List Nat) : DsaState × String :=
+  let h := s.llh
+  let setH (h' : LHeap) (out : String) : DsaState × String := ({ s with llh := h' }, out)
+  let nodeCmds := ["insbefore", "insafter", "claim", "destroy", "mvfirst", "mvlast", "next", "prev", "parent"]
+  if nodeCmds.contains cmd then
+    match args with
+    | a :: rest =>
+      match h.nodes a with
+      | none => (s, "bad-handle")
+      | some nd =>
+        match cmd, rest with
+        | "insbefore", [b] =>
+          if b < 1 ∨ (h.nodes b).isSome then (s, "bad-handle") else
+          let (ok, o) := s.orc.next
+          if ok then ({ s with llh := h.insertBefore pinnedLinkPrev a b, orc := o }, "ok") else ({ s with orc := o }, "nomem")
+        | "insafter", [b] =>
+          if b < 1 ∨ (h.nodes b).isSome then (s, "bad-handle") else
+          let (ok, o) := s.orc.next
+          if ok then ({ s with llh := h.insertAfter pinnedLinkPrev a b, orc := o }, "ok") else ({ s with orc := o }, "nomem")
+        | "claim", [] => setH (h.claim a) (toString a)
+        | "destroy", [] => setH (h.claim a) "ok"
+        | "mvfirst", [l] => if (h.lists l).isNone then (s, "bad-handle") else setH (h.mvParentFirst a l) "ok"
+        | "mvlast", [l] => if (h.lists l).isNone then (s, "bad-handle") else setH (h.mvParentLast a l) "ok"
+        | "next", [] => (s, optStr nd.next)
+        | "prev", [] => (s, optStr nd.prev)
+        | "parent", [] => (s, match nd.parent with | some l => toString l | none => "-1")
+        | _, _ => (s, "bad-op")
+    | [] => (s, "bad-op")
+  else
+    match args with
+    | l :: rest =>
+      if cmd = "new" then
+        match h.lists l, rest with
+        | none, [] =>
+          let (ok, o) := s.orc.next
+          if ok then ({ s with llh := h.create l, orc := o }, "ok") else ({ s with orc := o }, "nomem")
+        | _, _ => (s, "bad-op")
+      else
+      match h.lists l with
+      | none => (s, "bad-handle")
+      | some hd =>
+        match cmd, rest with
+        | "insfirst", [b] =>
+          if b < 1 ∨ (h.nodes b).isSome then (s, "bad-handle") else
+          let (ok, o) := s.orc.next
+          if ok then ({ s with llh := h.insertFirst l b, orc := o }, "ok") else ({ s with orc := o }, "nomem")
+        | "inslast", [b] =>
+          if b < 1 ∨ (h.nodes b).isSome then (s, "bad-handle") else
+          let (ok, o) := s.orc.next
+          if ok then ({ s with llh := h.insertLast l b, orc := o }, "ok") else ({ s with orc := o }, "nomem")
+        | "idx", [i] => (s, optStr (h.nodeIdx l i))
+        | "first", [] => (s, optStr hd.head)
+        | "last", [] => (s, optStr hd.tail)
+        | "len", [] => (s, toString hd.cnt)
+        | "dumpf", [] => (s, showList (h.forward l llFuel))
+        | "dumpb", [] => (s, showList (h.backward l llFuel))
+        | _, _ => (s, "bad-op")
+    | [] => (s, "bad-op")
+
+def allocCmd (s : DsaState) (args : List String) : DsaState × String :=
+  match args with
+  | ["failnth", k] =>
+    match k.toNat? with
+    | some k => ({ s with orc := s.orc.failNth k }, "ok")
+    | none => (s, "bad-op")
+  | ["count"] => ({ s with cntBase := s.orc.pos }, toString (s.orc.pos - s.cntBase))
+  | _ => (s, "bad-op")
+
 def step (s : DsaState) (toks : List String) : DsaState × String :=
   match toks with
   | "arr" :: cmd :: h :: rest =>
     match h.toNat?, rest.mapM String.toNat? with
     | some h, some args => arrCmd s cmd h args
     | _, _ => (s, "bad-op")
+  | "ht" :: cmd :: h :: rest =>
+    match h.toNat? with
+    | some h => htCmd s cmd h rest
+    | none => (s, "bad-op")
+  | "buf" :: cmd :: h :: rest =>
+    match h.toNat? with
+    | some h => bufCmd s cmd h rest
+    | none => (s, "bad-op")
+  | "sl" :: cmd :: rest => slCmd s cmd rest
+  | "ll" :: cmd :: rest =>
+    match rest.mapM String.toNat? with
+    | some args => llCmd s cmd args
+    | none => (s, "bad-op")
+  | "alloc" :: rest => allocCmd s rest
   | _ => (s, "bad-op")
 
 def main : IO Unit := loop ({} : DsaState) step
